@@ -66,6 +66,42 @@ func C02(c *core.Child) {
 				return
 			}
 			w = shapes[i]
+		case "binlen":
+			// every binary length 0..4200, alone and as a struct field between
+			// two other fields (framing errors show in what follows)
+			n := int(i / 2)
+			b := r.Bytes(n)
+			if i%2 == 0 {
+				w = rc.Binary(b)
+			} else {
+				w = rc.Struct(rc.Field{ID: 1, V: rc.I32(int32(n))}, rc.Field{ID: 2, V: rc.Binary(b)}, rc.Field{ID: 3, V: rc.Binary([]byte("tail"))})
+			}
+		case "long":
+			// long containers of scalar elements: batching / buffering paths
+			lens := []int{63, 64, 65, 127, 128, 129, 255, 256, 257, 511, 512, 513, 1000, 1023, 1024, 1025, 2048, 4097, 10000}
+			n := lens[r.Intn(len(lens))]
+			if r.Chance(1, 3) {
+				n = r.Range(50, 3000)
+			}
+			et := rc.AllTypes[r.Intn(7)]
+			o := rc.GenOpts{MaxBin: 6, NaN: true, Budget: 1 << 30}
+			switch r.Intn(3) {
+			case 0:
+				w = rc.W{T: rc.TList, VT: et}
+			case 1:
+				w = rc.W{T: rc.TSet, VT: et}
+			default:
+				w = rc.W{T: rc.TMap, KT: et, VT: rc.AllTypes[r.Intn(7)]}
+			}
+			for k := 0; k < n; k++ {
+				if w.T == rc.TMap {
+					w.Items = append(w.Items, rc.Gen(r, w.KT, o))
+				}
+				w.Items = append(w.Items, rc.Gen(r, w.VT, o))
+			}
+			if r.Bool() { // nested in a struct with a sentinel after it
+				w = rc.Struct(rc.Field{ID: 1, V: w}, rc.Field{ID: 2, V: rc.I64(-2)})
+			}
 		case "big":
 			o := rc.DefaultGen
 			o.BigBin = true
